@@ -28,11 +28,13 @@ import (
 // rotating sample of name_; C02 carries the look-alike families (ifinit, name_) and a rotating sample of
 // the others. pick(n) must return a seed-determined number in [0,n).
 func FamilyAtoms(prop string, quick bool, pick func(n int) int) (out []OutsideAtom) {
-	eff, str, nam, ty, ifi := effectOnceAtoms(), stringLiteralAtoms(), namedLikeAtoms(), typeNestingAtoms(), ifInitAtoms()
+	eff, str, nam, ty, ifi, bod := effectOnceAtoms(), stringLiteralAtoms(), namedLikeAtoms(), typeNestingAtoms(), ifInitAtoms(), bodyShapeAtoms()
+	rej := rejectedConstructFamilies()
 	if !quick {
-		all := append(append(append(append([]OutsideAtom{}, eff...), str...), nam...), ty...)
+		all := append(append(append(append(append([]OutsideAtom{}, eff...), str...), nam...), ty...), bod...)
 		if prop == "C02" {
 			all = append(all, ifi...)
+			all = append(all, rej...)
 		}
 		return all
 	}
@@ -67,9 +69,11 @@ func FamilyAtoms(prop string, quick bool, pick func(n int) int) (out []OutsideAt
 		}
 		out = append(out, sample(rest, 3)...)
 		out = append(out, sample(nam, 9)...)
+		out = append(out, sample(bod, 8)...)
 		return out
 	}
 	out = append(out, ifi...)
+	out = append(out, rej...)
 	prio := map[string]bool{"disk": true, "filesys": true, "machine": true, "sync": true}
 	var rest []OutsideAtom
 	for _, a := range nam {
@@ -84,6 +88,7 @@ func FamilyAtoms(prop string, quick bool, pick func(n int) int) (out []OutsideAt
 	out = append(out, sample(eff, 4)...)
 	out = append(out, sample(ty, 4)...)
 	out = append(out, sample(str, 6)...)
+	out = append(out, sample(bod, 24)...)
 	return out
 }
 
@@ -454,5 +459,187 @@ func typeNestingAtoms() []OutsideAtom {
 		out = append(out, OutsideAtom{ID: id, Kind: "decl", Site: "composite type " + e.ty + " as struct field / slice-of field / map-of field",
 			Code: strings.ReplaceAll(strings.ReplaceAll("type H struct {\n\tf uint64\n\tg uint32\n}\n\ntype Bytes []byte\n\ntype MapU map[uint64]uint64\n\nfunc ptrNil(p *H) uint64 {\n\tif p == nil {\n\t\treturn 1\n\t}\n\treturn 0\n}\n\nfunc ptrNilU(p *uint64) uint64 {\n\tif p == nil {\n\t\treturn 1\n\t}\n\treturn 0\n}\n\nfunc fnNil(f func(uint64) uint64) uint64 {\n\tif f == nil {\n\t\treturn 1\n\t}\n\treturn 0\n}\n\nfunc boolU(b bool) uint64 {\n\tif b {\n\t\treturn 1\n\t}\n\treturn 0\n}\n\nfunc mapNil(mp map[uint64]uint64) uint64 {\n\tif mp == nil {\n\t\treturn 1\n\t}\n\treturn 0\n}\n\ntype ID_t struct {\n\tone TT\n\tmany []TT\n\tbykey map[uint64]TT\n\tn uint64\n}\n\nfunc ID_fn(a uint64) uint64 {\n\tt := &ID_t{n: a}\n\tt.many = make([]TT, 2)\n\tt.bykey = make(map[uint64]TT)\n\treturn t.n + uint64(len(t.many)) + uint64(len(t.bykey)) + "+strings.ReplaceAll(e.zero, "EE", "t.one")+" + "+strings.ReplaceAll(e.zero, "EE", "t.many[1]")+"\n}", "TT", e.ty), "ID", id)})
 	}
+	return out
+}
+
+// bodyShapeAtoms: the dimension "which statements a body begins and ends with" crossed with the
+// constructs that have bodies. Printing decisions (parentheses around a body, `;;` versus `let:`,
+// the value of a block) depend on the first and the last statement of a statement list.
+func bodyShapeAtoms() []OutsideAtom {
+	type st struct{ id, code string }
+	// V is the value the container binds (loop element / counter / a%5)
+	stmts := []st{
+		{"ifonly", "if x > V {\n\t\tx = x - 1\n\t}"},
+		{"ifelse", "if V%2 == 0 {\n\t\tx = x + 1\n\t} else {\n\t\tx = x + 2\n\t}"},
+		{"varstore", "x = x + V"},
+		{"derefstore", "*q = *q + V"},
+		{"ptrptrstore", "**qq = **qq + V + 1"},
+		{"fieldstore", "p.f = p.f + V"},
+		{"elemstore", "s[1] = s[1] + V"},
+		{"mapstore", "m[V%3] = x"},
+		{"call", "sideEffect1(V)"},
+		{"opassign", "x += V * 2"},
+		{"nestedloop", "for j2 := uint64(0); j2 < 2; j2++ {\n\t\tx = x + j2 + V\n\t}"},
+		{"definethenuse", "t9 := V + 1\n\tx = x + t9"},
+	}
+	type ct struct{ id, open, close, v string }
+	conts := []ct{
+		{"rangev", "for _, v := range s {\n", "}\n", "v"},
+		{"rangekv", "for i, v := range s {\n\tx = x + uint64(i)\n", "}\n", "v"},
+		{"rangemap", "m1 := make(map[uint64]uint64)\n\tm1[5] = 1\n\tfor k, v := range m1 {\n", "}\n", "(k + v)"},
+		{"for3", "for j := uint64(0); j < 3; j++ {\n", "}\n", "j"},
+		{"forcond", "var c uint64 = 0\n\tfor c < 2 {\n\tc = c + 1\n", "}\n", "c"},
+		{"ifthen", "if a%2 == 0 {\n", "}\n", "(a % 5)"},
+		{"elsearm", "if a%2 == 1 {\n\tx = x + 9\n} else {\n", "}\n", "(a % 5)"},
+		{"closure", "cl := func(v uint64) {\n", "}\n\tcl(a % 5)\n\tcl(3)\n", "v"},
+		{"block", "{\n", "}\n", "(a % 5)"},
+		{"funcbody", "", "", "(a % 5)"},
+	}
+	var out []OutsideAtom
+	for _, c := range conts {
+		for _, f := range stmts {
+			for _, l := range stmts {
+				if f.id == l.id && f.id != "ifonly" && f.id != "varstore" {
+					continue
+				}
+				id := "body_" + c.id + "_" + f.id + "_" + l.id
+				ind := func(code string) string {
+					code = strings.ReplaceAll(code, "V", c.v)
+					if c.open == "" {
+						return "\t" + code + "\n"
+					}
+					return "\t\t" + strings.ReplaceAll(code, "\n\t", "\n\t\t") + "\n"
+				}
+				body := ind(f.code) + ind(l.code)
+				open := c.open
+				if open != "" {
+					open = "\t" + strings.ReplaceAll(strings.TrimSuffix(open, "\n"), "\n\t", "\n\t\t") + "\n"
+					open = strings.ReplaceAll(open, "\n} else {", "\n\t} else {")
+				}
+				cls := c.close
+				if cls != "" {
+					cls = "\t" + cls
+				}
+				code := "type H struct {\n\tf uint64\n}\n\nfunc sideEffect1(v uint64) {\n}\n\nfunc ID_fn(a uint64) uint64 {\n\tvar x uint64 = a % 10\n\tp := &H{f: 1}\n\ts := make([]uint64, 3)\n\ts[0] = a % 7\n\ts[1] = 2\n\ts[2] = a % 3\n\tm := make(map[uint64]uint64)\n\tm[1] = 4\n\tq := new(uint64)\n\tqq := new(*uint64)\n\t*qq = q\n" +
+					open + body + cls + "\treturn x + p.f*3 + s[1]*5 + m[0] + m[1]*7 + m[2]*11 + *q*13\n}"
+				out = append(out, OutsideAtom{ID: id, Kind: "decl", Code: strings.ReplaceAll(code, "ID", id), Site: "statement list beginning with " + f.id + " and ending with " + l.id + " as the body of " + c.id})
+			}
+		}
+	}
+	return out
+}
+
+// rejectedConstructFamilies: constructs goose refuses today, each in the variants whose meaning is
+// easiest to get wrong if a later version starts to accept them (C02: accepted means faithful).
+func rejectedConstructFamilies() []OutsideAtom {
+	var out []OutsideAtom
+	add := func(id, code string, noloop bool) {
+		out = append(out, OutsideAtom{ID: id, Kind: "stmt", Code: code, NoLoop: noloop, Site: "rejected construct, tricky variant: " + id})
+	}
+	addDecl := func(id, code string) {
+		out = append(out, OutsideAtom{ID: id, Kind: "decl", Code: strings.ReplaceAll(code, "ID", id), Site: "rejected construct, tricky variant: " + id})
+	}
+	// --- parallel assignment: all right-hand sides are evaluated before any store
+	add("passign_swap_vars", "var x2 uint64 = 3\n\tx, x2 = x2, x\n\tx += x2 * 10", false)
+	add("passign_rotate3", "var x2 uint64 = 3\n\tvar x3 uint64 = 5\n\tx, x2, x3 = x2, x3, x\n\tx += x2*10 + x3*100", false)
+	add("passign_alias_pointer", "var x2 uint64 = 1\n\tvar x3 uint64 = 2\n\tpx := &x2\n\tx2, x3 = 7, *px\n\tx += x2*10 + x3*100", false)
+	add("passign_alias_closure", "var x2 uint64 = 1\n\tvar x3 uint64 = 2\n\tget := func() uint64 {\n\t\treturn x2\n\t}\n\tx2, x3 = 7, get()\n\tx += x2*10 + x3*100", false)
+	add("passign_alias_deref_target", "var x3 uint64 = 2\n\t*q, x3 = 7, *q+1\n\tx += x3 * 100", false)
+	add("passign_elems_swap", "s[0], s[1] = s[1]+1, s[0]+2", false)
+	add("passign_elem_and_index", "var i2 uint64 = 1\n\ti2, s[i2] = 2, 9\n\tx += i2", false)
+	add("passign_fields_swap", "p.f, p.g = uint64(p.g)+1, uint32(p.f)+2", false)
+	add("passign_map_swap", "m[1], m[2] = m[2]+5, m[1]+6", false)
+	add("passign_independent", "var x2 uint64 = 1\n\tvar x3 uint64 = 2\n\tx2, x3 = y+1, y+2\n\tx += x2*10 + x3*100", false)
+	add("passign_define_mixed", "x2, x3 := y+1, x+2\n\tx += x2*10 + x3*100", false)
+	add("passign_effect_order", "var x2 uint64 = 0\n\tvar x3 uint64 = 0\n\tx2, x3 = bump(q), *q\n\tx += x2*10 + x3*100", false)
+	// --- switch
+	add("switch_tagless_basic", "switch {\n\tcase x > 100:\n\t\tx = 1\n\tcase x > 5:\n\t\tx = x + 2\n\tdefault:\n\t\tx = x + 3\n\t}", false)
+	add("switch_tag_var", "switch y {\n\tcase 1:\n\t\tx = 50\n\tcase 4, 9:\n\t\tx = x + 60\n\tdefault:\n\t\tx = x + 70\n\t}", false)
+	add("switch_default_first", "switch y {\n\tdefault:\n\t\tx = x + 70\n\tcase 1:\n\t\tx = 50\n\t}", false)
+	add("switch_no_default", "switch y {\n\tcase 1:\n\t\tx = 50\n\tcase 4:\n\t\tx = x + 60\n\t}", false)
+	add("switch_tag_call_once", "switch bump(q) % 3 {\n\tcase 0:\n\t\tx = x + 1\n\tcase 1:\n\t\tx = x + 2\n\tcase 2:\n\t\tx = x + 3\n\t}", false)
+	add("switch_case_expr_effects", "switch y {\n\tcase bump(q):\n\t\tx = x + 1\n\tcase bump(q) + 100:\n\t\tx = x + 2\n\tdefault:\n\t\tx = x + 3\n\t}", false)
+	add("switch_fallthrough", "switch {\n\tcase x > 5:\n\t\tx = x + 1\n\t\tfallthrough\n\tcase x > 1000000:\n\t\tx = x + 10\n\tdefault:\n\t\tx = x + 100\n\t}", false)
+	add("switch_break_in_clause", "switch {\n\tcase x > 5:\n\t\tif y > 3 {\n\t\t\tbreak\n\t\t}\n\t\tx = x + 10\n\tdefault:\n\t\tx = x + 100\n\t}\n\tx += 1", false)
+	add("switch_last_in_loop_break", "for i := uint64(0); i < 4; i++ {\n\t\tx += 1\n\t\tswitch {\n\t\tcase i == 1:\n\t\t\tbreak\n\t\tdefault:\n\t\t\tx += 10\n\t\t}\n\t}", true)
+	add("switch_last_in_loop_break_in_if", "for i := uint64(0); i < 4; i++ {\n\t\tx += 1\n\t\tswitch {\n\t\tcase i > 0:\n\t\t\tif i == 2 {\n\t\t\t\tbreak\n\t\t\t}\n\t\t\tx += 10\n\t\tdefault:\n\t\t\tx += 100\n\t\t}\n\t}", true)
+	add("switch_last_in_range_break", "for _, v := range s {\n\t\tswitch v {\n\t\tcase 0:\n\t\t\tbreak\n\t\tdefault:\n\t\t\tx += v\n\t\t}\n\t}", true)
+	add("switch_in_loop_continue", "for i := uint64(0); i < 4; i++ {\n\t\tswitch {\n\t\tcase i == 1:\n\t\t\tcontinue\n\t\tdefault:\n\t\t\tx += 10\n\t\t}\n\t\tx += 1\n\t}", true)
+	add("switch_mid_loop_break", "for i := uint64(0); i < 4; i++ {\n\t\tswitch {\n\t\tcase i == 1:\n\t\t\tbreak\n\t\tdefault:\n\t\t\tx += 10\n\t\t}\n\t\tx += 1\n\t}", true)
+	add("switch_return_in_clause", "switch {\n\tcase x > 250:\n\t\treturn x + 5\n\tcase x > 5:\n\t\tx = x + 2\n\t}\n\tx += 1", true)
+	add("switch_all_clauses_return", "switch {\n\tcase x > 250:\n\t\treturn x + 5\n\tdefault:\n\t\treturn x + 6\n\t}", true)
+	add("switch_init", "switch t9 := x % 3; t9 {\n\tcase 0:\n\t\tx = x + 1\n\tdefault:\n\t\tx = x + t9\n\t}", false)
+	add("switch_shadow_in_clause", "switch {\n\tcase x > 5:\n\t\ty := x * 2\n\t\tx = y + 1\n\tdefault:\n\t\ty := x + 3\n\t\tx = y\n\t}\n\tx += y", false)
+	add("switch_duplicate_capable_cases", "switch x % 4 {\n\tcase 0, 1:\n\t\tx = x + 1\n\tcase 2:\n\t\tx = x + 2\n\tcase 3:\n\t}\n\tx += 5", false)
+	add("switch_on_string", "switch str {\n\tcase \"abc\":\n\t\tx = x + 1\n\tcase \"abd\":\n\t\tx = x + 2\n\t}", false)
+	add("switch_on_bool_tag", "switch x > 5 {\n\tcase true:\n\t\tx = x + 1\n\tcase false:\n\t\tx = x + 2\n\t}", false)
+	add("switch_u32_tag", "switch w {\n\tcase 9:\n\t\tx = x + 1\n\tcase 10:\n\t\tx = x + 2\n\t}", false)
+	// --- unsupported assignment operators on every l-value kind and width
+	for _, op := range []struct{ id, op string }{{"mul", "*="}, {"quo", "/="}, {"rem", "%="}, {"shl", "<<="}, {"shr", ">>="}, {"andnot", "&^="}} {
+		rhs := "3"
+		add("opx_"+op.id+"_var", "x "+op.op+" "+rhs, false)
+		add("opx_"+op.id+"_u32", "w "+op.op+" "+rhs+"\n\tx += uint64(w)", false)
+		add("opx_"+op.id+"_u8", "z "+op.op+" "+rhs+"\n\tx += uint64(z)", false)
+		add("opx_"+op.id+"_field", "p.f "+op.op+" "+rhs, false)
+		add("opx_"+op.id+"_field_u32", "p.g "+op.op+" "+rhs, false)
+		add("opx_"+op.id+"_elem", "s[2] "+op.op+" "+rhs, false)
+		add("opx_"+op.id+"_map", "m[1] "+op.op+" "+rhs, false)
+		add("opx_"+op.id+"_deref", "*q "+op.op+" "+rhs, false)
+		add("opx_"+op.id+"_elem_effect_index", "s[bump(q)%3] "+op.op+" "+rhs, false)
+	}
+	// --- inc/dec on every l-value kind
+	for _, op := range []string{"++", "--"} {
+		id := map[string]string{"++": "inc", "--": "dec"}[op]
+		add("incx_"+id+"_field", "p.f"+op, false)
+		add("incx_"+id+"_field_u32", "p.g"+op, false)
+		add("incx_"+id+"_field_u8", "p.b"+op, false)
+		add("incx_"+id+"_elem", "s[2]"+op, false)
+		add("incx_"+id+"_elem_effect_index", "s[bump(q)%3]"+op, false)
+		add("incx_"+id+"_map", "m[1]"+op, false)
+		add("incx_"+id+"_map_absent", "m[77]"+op+"\n\tx += m[77] + uint64(len(m))", false)
+		add("incx_"+id+"_deref", "(*q)"+op, false)
+		// ++/-- on a uint32 / byte VARIABLE is the recorded C01 finding incdec-on-narrow-integer (the gold
+		// files pin `+ #1`): not repeated here
+		add("incx_"+id+"_param", "a"+op+"\n\tx += a", false)
+		add("incx_"+id+"_define_bound", "y2 := y\n\ty2"+op+"\n\tx += y2", false)
+	}
+	// --- defer
+	add("defer_modifies_result_var", "defer func() {\n\t\tx = x + 1000\n\t}()\n\tx += 1", true)
+	add("defer_order", "defer func() {\n\t\t*q = *q * 2\n\t}()\n\tdefer func() {\n\t\t*q = *q + 1\n\t}()\n\tx += *q", true)
+	add("defer_args_evaluated_early", "defer sideEffect(q, x)\n\tx += 5", true)
+	addDecl("defer_named_result", "func ID_h(a uint64) (r uint64) {\n\tdefer func() {\n\t\tr = r + 100\n\t}()\n\treturn a + 1\n}\n\nfunc ID_fn(a uint64) uint64 {\n\treturn ID_h(a % 50)\n}")
+	addDecl("defer_in_loop", "func ID_h(a uint64, p *uint64) {\n\tfor i := uint64(0); i < 3; i++ {\n\t\tk := i\n\t\tdefer func() {\n\t\t\t*p = *p*10 + k\n\t\t}()\n\t}\n\t*p = a % 7\n}\n\nfunc ID_fn(a uint64) uint64 {\n\tp := new(uint64)\n\tID_h(a, p)\n\treturn *p\n}")
+	addDecl("defer_unlock_then_read", "func ID_h(mu *sync.Mutex, p *uint64) uint64 {\n\tmu.Lock()\n\tdefer mu.Unlock()\n\t*p = *p + 1\n\treturn *p\n}\n\nfunc ID_fn(a uint64) uint64 {\n\tmu := new(sync.Mutex)\n\tp := new(uint64)\n\t*p = a % 9\n\tr := ID_h(mu, p)\n\tmu.Lock()\n\tr = r + *p\n\tmu.Unlock()\n\treturn r\n}")
+	// --- named results
+	addDecl("named_result_bare_return", "func ID_h(a uint64) (r uint64, ok bool) {\n\tr = a + 1\n\tif a > 3 {\n\t\tok = true\n\t\treturn\n\t}\n\tr = r * 2\n\treturn\n}\n\nfunc ID_fn(a uint64) uint64 {\n\tr, ok := ID_h(a % 8)\n\tif ok {\n\t\treturn r + 100\n\t}\n\treturn r\n}")
+	addDecl("named_result_shadowed", "func ID_h(a uint64) (r uint64) {\n\tr = a\n\tif a > 2 {\n\t\tr := a * 10\n\t\t_ = r\n\t}\n\treturn r + 1\n}\n\nfunc ID_fn(a uint64) uint64 {\n\treturn ID_h(a % 8)\n}")
+	addDecl("named_result_explicit_values", "func ID_h(a uint64) (r uint64, s uint64) {\n\tr = 5\n\treturn a + 1, r\n}\n\nfunc ID_fn(a uint64) uint64 {\n\tx, y := ID_h(a % 8)\n\treturn x*10 + y\n}")
+	// --- goto / labels beyond the catalogue
+	add("goto_backward_loop", "var gi uint64 = 0\nagain:\n\tx += gi\n\tgi = gi + 1\n\tif gi < 3 {\n\t\tgoto again\n\t}", true)
+	// --- struct / array values
+	add("struct_assign_copies", "h2 := H{f: x}\n\tvar h3 H\n\th3 = h2\n\th3.f = h3.f + 1\n\tx += h2.f*10 + h3.f", false)
+	add("struct_compare_ne", "h2 := H{f: x}\n\th3 := H{f: x, g: 1}\n\tif h2 != h3 {\n\t\tx += 4\n\t}", false)
+	add("array_assign_copies", "var a1 [2]uint64\n\ta1[0] = x\n\ta2 := a1\n\ta2[0] = a2[0] + 1\n\tx += a1[0]*10 + a2[0]", false)
+	add("array_range", "var a1 [3]uint64\n\ta1[1] = x\n\tfor i, v := range a1 {\n\t\tx += v + uint64(i)\n\t}", false)
+	add("array_of_array", "var a1 [2][2]uint64\n\ta1[1][0] = x\n\tx += a1[1][0] + a1[0][1]", false)
+	add("slice_of_array", "var a1 [4]uint64\n\ta1[1] = x\n\tt := a1[1:3]\n\tt[0] = t[0] + 1\n\tx += a1[1] + uint64(len(t))", false)
+	// --- range forms
+	add("range_int_var", "n9 := 3\n\tfor i := range n9 {\n\t\tx += uint64(i)\n\t}", false)
+	add("range_string_index", "for i := range str {\n\t\tx += uint64(i)\n\t}", false)
+	add("range_modifies_slice_var", "var t []uint64\n\tt = append(t, 1)\n\tt = append(t, 2)\n\tfor _, v := range t {\n\t\tif v == 1 {\n\t\t\tt = append(t, 9)\n\t\t}\n\t\tx += v\n\t}\n\tx += uint64(len(t))", false)
+	add("range_value_is_copy", "hs := make([]H, 2)\n\tfor _, hv := range hs {\n\t\thv.f = 9\n\t\tx += hv.f\n\t}\n\tx += hs[0].f", false)
+	add("range_pointer_elems", "ps := make([]*H, 2)\n\tps[0] = p\n\tps[1] = &H{f: 2}\n\tfor _, hp := range ps {\n\t\thp.f = hp.f + 1\n\t}\n\tx += ps[1].f", false)
+	// --- stores into struct VALUES that are not heap cells
+	add("fieldassign_define_bound", "c9 := H{f: x}\n\tc9.f = 1000\n\tx += c9.f", false)
+	add("fieldassign_define_bound_opassign", "c9 := H{f: x}\n\tc9.f += 5\n\tx += c9.f", false)
+	add("fieldassign_nested_value", "o9 := Outer{n: x}\n\to9.in.f = 7\n\tx += o9.in.f + o9.n", false)
+	add("fieldassign_var_ok", "var c9 H\n\tc9.f = x + 1\n\tc9.g += 2\n\tx += c9.f + uint64(c9.g)", false)
+	add("fieldassign_var_nested_ok", "var o9 Outer\n\to9.in.f = x + 1\n\to9.n = 3\n\tx += o9.in.f + o9.n", false)
+	addDecl("fieldassign_param_struct", "type ID_t struct {\n\tv uint64\n}\n\nfunc ID_h(t ID_t, a uint64) uint64 {\n\tt.v = t.v + a\n\treturn t.v\n}\n\nfunc ID_fn(a uint64) uint64 {\n\tt := ID_t{v: 2}\n\treturn ID_h(t, a%9) + t.v\n}")
+	addDecl("fieldassign_value_receiver", "type ID_t struct {\n\tv uint64\n}\n\nfunc (t ID_t) bump(a uint64) uint64 {\n\tt.v = t.v + a\n\treturn t.v\n}\n\nfunc ID_fn(a uint64) uint64 {\n\tt := ID_t{v: 2}\n\treturn t.bump(a%9) + t.v\n}")
+	// --- min / max / clear builtins
+	add("max_builtin", "x = max(x, 3, y)", false)
+	add("clear_map_builtin", "clear(m)\n\tx += uint64(len(m))", false)
+	add("clear_slice_builtin", "clear(s)\n\tx += s[0] + s[2]", false)
 	return out
 }
